@@ -1,0 +1,115 @@
+//go:build verif
+
+package rescache
+
+import (
+	"sort"
+	"time"
+
+	"github.com/resgateio/resgate/server/codec"
+)
+
+// Read-only introspection for the external verification harness. The harness calls these only
+// while every worker is parked at a verifhook gate, so no locking is needed beyond what is taken.
+
+// VerifRSSnap describes one cached resource (one query variant).
+type VerifRSSnap struct {
+	Query      string
+	State      int // 0 subscribed, 1 error, 2 requested, 3 collection, 4 model
+	Version    uint
+	Resetting  bool
+	Subs       []string // "cid rid" of each subscriber, sorted
+	Links      []string
+	Model      map[string]codec.Value
+	Collection []codec.Value
+}
+
+// VerifEntrySnap describes one cache entry.
+type VerifEntrySnap struct {
+	Name         string
+	Count        int64
+	HasMQSub     bool
+	InEvictQueue bool
+	QueueLen     int
+	LocksLen     int
+	LocksCap     int // -1 when no lock is active
+	Resources    []VerifRSSnap
+}
+
+type verifRIDer interface{ RID() string }
+
+func (c *Cache) verifRS(rs *ResourceSubscription) VerifRSSnap {
+	s := VerifRSSnap{Query: rs.query, State: int(rs.state), Version: rs.version, Resetting: rs.resetting, Links: append([]string{}, rs.links...)}
+	for sub := range rs.subs {
+		id := sub.CID()
+		if r, ok := sub.(verifRIDer); ok {
+			id += " " + r.RID()
+		}
+		s.Subs = append(s.Subs, id)
+	}
+	sort.Strings(s.Subs)
+	if rs.model != nil {
+		s.Model = rs.model.Values
+	}
+	if rs.collection != nil {
+		s.Collection = rs.collection.Values
+	}
+	return s
+}
+
+// VerifEntries returns a snapshot of all cache entries, sorted by name.
+func (c *Cache) VerifEntries() []VerifEntrySnap {
+	c.mu.Lock()
+	defer c.mu.Unlock()
+	var out []VerifEntrySnap
+	for name, e := range c.eventSubs {
+		e.mu.Lock()
+		s := VerifEntrySnap{Name: name, Count: e.count, HasMQSub: e.mqSub != nil, QueueLen: len(e.queue), LocksLen: len(e.locks), LocksCap: -1}
+		if e.locks != nil {
+			s.LocksCap = cap(e.locks)
+		}
+		seen := map[*ResourceSubscription]bool{}
+		if e.base != nil {
+			seen[e.base] = true
+			s.Resources = append(s.Resources, c.verifRS(e.base))
+		}
+		qs := make([]string, 0, len(e.queries))
+		for q := range e.queries {
+			qs = append(qs, q)
+		}
+		sort.Strings(qs)
+		for _, q := range qs {
+			if rs := e.queries[q]; !seen[rs] {
+				seen[rs] = true
+				s.Resources = append(s.Resources, c.verifRS(rs))
+			}
+		}
+		e.mu.Unlock()
+		if c.unsubQueue.Remove(e) {
+			c.unsubQueue.Add(e)
+			s.InEvictQueue = true
+		}
+		out = append(out, s)
+	}
+	sort.Slice(out, func(i, j int) bool { return out[i].Name < out[j].Name })
+	return out
+}
+
+// VerifSetUnsubscribeDelay sets the eviction delay. Must be called before Start.
+func (c *Cache) VerifSetUnsubscribeDelay(d time.Duration) { c.unsubscribeDelay = d }
+
+// VerifEvict fires the eviction timer of the named entry now, if the entry is waiting for it.
+// It returns whether the entry was in the eviction queue.
+func (c *Cache) VerifEvict(name string) bool {
+	c.mu.Lock()
+	e := c.eventSubs[name]
+	c.mu.Unlock()
+	if e == nil || !c.unsubQueue.Remove(e) {
+		return false
+	}
+	c.mqUnsubscribe(e)
+	return true
+}
+
+// VerifEvictQueueLen returns the number of entries waiting for eviction.
+func (c *Cache) VerifEvictQueueLen() int { return c.unsubQueue.Len() }
